@@ -22,6 +22,7 @@ class ReplHost:
         self.line = None
         self.printed = []
         self.calls = []           # outcomes of interpret calls
+        self.ctor = []            # arguments of every Interpreter(...) call
         self.alive = True
         self.exc = None
         self.interp = None
@@ -47,6 +48,8 @@ class ReplHost:
 
         class RecInterpreter(Base):
             def __init__(self, *a, **k):
+                if threading.current_thread() is host.thread:
+                    host.ctor.append((a, dict(k)))
                 super().__init__(*a, **k)
                 # only interpreters the REPL itself creates are "the REPL's
                 # interpreter" (the harness may create others meanwhile)
@@ -164,9 +167,13 @@ class RunHost(ReplHost):
         host = self
         Rec = I.Interpreter          # the recording subclass
 
-        def factory(secure=False, legacy=False):
+        def factory(*a, **k):
+            # (other interpreters the harness creates meanwhile are not the
+            # host's: only what ckl.run itself constructs is registered)
+            host.ctor.append((a, dict(k)))
             if host.interp is None:
-                Rec(secure, legacy)  # registers itself as host.interp
+                host.interp = Rec(*a, **k)
+                host.sim.inst[host.name] = host.interp
             return host.interp
 
         def fake_print(*args, **kw):
@@ -186,7 +193,7 @@ class RunHost(ReplHost):
             setattr(mod, nme, val)
 
     def start(self):
-        self.thread = threading.current_thread()
+        self.thread = None
         self._install()
         w = self.sim.w
         w.in_proxy += 1
@@ -194,7 +201,9 @@ class RunHost(ReplHost):
             w.put_dir("/sim/run")
         finally:
             w.in_proxy -= 1
-        return True
+        # a first, empty script: the host constructs its interpreter
+        self.send("NULL")
+        return self.alive
 
     def send(self, line):
         import ckl.run as RUN
